@@ -5,6 +5,7 @@ package run
 
 import (
 	"bufio"
+	"context"
 	"encoding/json"
 	"flag"
 	"fmt"
@@ -223,18 +224,28 @@ func doParent(c *Check, scens []Scenario, tier string, budget, procs int, args [
 	var results []scenResult
 	var infra []string
 	var wg sync.WaitGroup
+	var hung []int
 	for i := 0; i < n; i++ {
 		wg.Add(1)
 		go func(i int) {
 			defer wg.Done()
 			a := append([]string{c.ID}, args...)
 			a = append(a, "--worker", fmt.Sprintf("%d/%d", i, n), "--tier", tier, "--budget", fmt.Sprint(budget))
-			cmd := exec.Command(exe, a...)
+			// a worker that is still running long after its budget sits in a step of the code under test that never
+			// reaches another scheduling point (an infinite loop): killed and reported as a violation
+			grace := time.Duration(3*budget+180) * time.Second
+			wctx, cancel := context.WithTimeout(context.Background(), time.Duration(budget)*time.Second+grace)
+			defer cancel()
+			cmd := exec.CommandContext(wctx, exe, a...)
 			cmd.Env = append(os.Environ(), "GOMAXPROCS=2")
 			cmd.Stderr = os.Stderr
 			outp, err := cmd.Output()
 			mu.Lock()
 			defer mu.Unlock()
+			if wctx.Err() != nil {
+				hung = append(hung, i)
+				err = nil
+			}
 			dec := json.NewDecoder(strings.NewReader(string(outp)))
 			for dec.More() {
 				var r scenResult
@@ -250,6 +261,21 @@ func doParent(c *Check, scens []Scenario, tier string, budget, procs int, args [
 		}(i)
 	}
 	wg.Wait()
+	if len(hung) > 0 {
+		done := map[string]bool{}
+		for _, r := range results {
+			done[r.Name] = true
+		}
+		var missing []string
+		for _, sc := range c.Scenarios(tier) {
+			if !done[sc.Name] {
+				missing = append(missing, sc.Name)
+			}
+		}
+		results = append(results, scenResult{Name: "(no termination)", Violation: &violationJSON{
+			Sig: "a step of the code under test does not return",
+			Msg: fmt.Sprintf("worker(s) %v were still running long after the budget of %d s: some step of the code under test never reaches another scheduling point (infinite loop). Scenarios without a result: %v", hung, budget, missing)}})
+	}
 	sort.Slice(results, func(i, j int) bool { return results[i].Name < results[j].Name })
 
 	var execs, completed, pruned, states, trans, outcomes, maxDepth, boundHits int
